@@ -32,7 +32,14 @@ _counter = [0]
 
 
 def _is_new(f: FuncInfo, inventory: set) -> bool:
-    return f.qualname not in inventory and not f.module.short.startswith("_typeguard")
+    if f.qualname in inventory or f.module.short.startswith("_typeguard"):
+        return False
+    # a pinned function that was moved (into a class, out of one, into another function of the same
+    # module) keeps its role under its name: not a helper to be dissolved
+    mod = f.module.short + "."
+    if any(q.startswith(mod) and q.rsplit(".", 1)[-1] == f.name for q in inventory):
+        return False
+    return True
 
 
 def _decorator_kind(f: FuncInfo) -> Optional[str]:
@@ -55,6 +62,8 @@ ROLE_MODULES = ("_storage",)  # functions there carry roles (push/pop/get/set, f
 def _inlinable(model, h: FuncInfo, caller: Optional[FuncInfo] = None) -> bool:
     if h.module.short in ROLE_MODULES:
         return False
+    if h.cls is not None and (not h.name.startswith("_") or h.name.startswith("__")):
+        return False  # public / dunder methods may override or implement a protocol of a base class: dispatch, not a helper
     n = h.node
     if not isinstance(n, ast.FunctionDef):
         return False
@@ -477,7 +486,7 @@ def drop_absorbed_helpers(model, inventory: set) -> list:
                 used.add(n.name.split(".")[-1])
     dropped = []
     for h in new_helpers:
-        if h.name in used or h.name.startswith("__"):
+        if h.name in used or h.name.startswith("__") or not h.name.startswith("_"):
             continue
         owner_body = None
         if isinstance(h.parent, FuncInfo):
